@@ -3,6 +3,9 @@ C05 — results keep the input shape; cells are computed independently.
 
 `shape_preserved` : every data command that succeeds returns an array with exactly the shape of its first input
                     (all inputs have that shape, or the command fails with MixedArrayShapes — see C07), for any rank.
+`rearr_equivariant` : rearranging the cells of all inputs in the same way (any permutation of the positions, and/or a new shape such as a
+                    vector reshaped to a grid) rearranges the outcome identically - all 31 commands; the whole-array statistics are shown
+                    to be invariant under permutation (Lemmas/Rearr: `minL_perm`, `maxL_perm`, `meanL_perm`, `varL_perm`, `mtmStats_perm`).
 -/
 import MPilot.Lemmas.ArrR
 import MPilot.Lemmas.Rearr
@@ -193,6 +196,35 @@ theorem naryFold_rearr (ref : LineRef) (g : Rat → Rat → Rat) (xs : List Arr)
   | nil => rfl
   | cons a t => simp only [List.map_cons, except_map_ok, rearr_foldArr s σ _ _ n hσ a t hn]
 
+theorem go_rearr (a : Arr) (tt ft : Option Num) (hl : Bool) (s σ : List Nat) (hσ : σ.Perm (List.range a.cells.length)) :
+    exec.go (a.rearr s σ) tt ft hl = (exec.go a tt ft hl).map (Arr.rearr s σ) := by
+  unfold exec.go
+  have hp := rearr_valid_perm s σ a hσ
+  rw [minL_perm hp, maxL_perm hp]
+  have key : ∀ (t f : Rat), fuzzyClamp (.ok (linMap t f 1 (-1) (a.rearr s σ))) = (fuzzyClamp (.ok (linMap t f 1 (-1) a))).map (Arr.rearr s σ) := by
+    intro t f
+    rw [← fuzzyClamp_map_rearr, except_map_ok, rearr_linMap]
+  have ite_key : ∀ (c : Prop) [Decidable c] (t f : Rat),
+      (if c then (eMp "InvalidThresholds" .cmd : Except Err Arr) else fuzzyClamp (.ok (linMap t f 1 (-1) (a.rearr s σ)))) =
+        (if c then (eMp "InvalidThresholds" .cmd : Except Err Arr) else fuzzyClamp (.ok (linMap t f 1 (-1) a))).map (Arr.rearr s σ) := by
+    intro c _ t f
+    split
+    · rfl
+    · exact key t f
+  have second : (match tt, ft with
+      | some t, some f => if t.val == f.val then (eMp "InvalidThresholds" .cmd : Except Err Arr) else fuzzyClamp (.ok (linMap t.val f.val 1 (-1) (a.rearr s σ)))
+      | _, _ => eRaw "Degenerate") =
+      (match tt, ft with
+      | some t, some f => if t.val == f.val then (eMp "InvalidThresholds" .cmd : Except Err Arr) else fuzzyClamp (.ok (linMap t.val f.val 1 (-1) a))
+      | _, _ => eRaw "Degenerate").map (Arr.rearr s σ) := by
+    cases tt <;> cases ft <;> first | rfl | exact ite_key _ _ _
+  cases minL a.valid with
+  | none => cases maxL a.valid <;> exact second
+  | some mn =>
+    cases maxL a.valid with
+    | none => exact second
+    | some mx => exact ite_key _ _ _
+
 /-- **C05 (cells are computed independently).**  Apply one rearrangement to every input - the same permutation `σ` of the cell positions
 and/or a new shape `s` (e.g. a vector reshaped to a grid) - and the outcome is the original outcome rearranged in exactly the same way:
 the same error, or the same cells at the new positions under the new shape, hidden payloads included.  All 31 commands, whole-array
@@ -315,6 +347,42 @@ theorem rearr_equivariant (sqrt : Rat → Rat) (c : DataCmd) (xs : List Arr) (n 
       · cases xs with
         | nil => simp [validateShapes, eMp] at hv
         | cons a t => rw [rearr_stackMap s σ n hσ _ a t hn, ← except_map_ok, fuzzyClamp_map_rearr]
-  all_goals sorry
+  -- single-input commands
+  all_goals (rcases xs with _ | ⟨a, _ | ⟨b, t⟩⟩ <;> simp only [List.map_cons, List.map_nil, exec] <;> try rfl)
+  all_goals (have hσa : σ.Perm (List.range a.cells.length) := by rw [hn a (List.mem_cons_self ..)]; exact hσ)
+  case normalize st e =>
+    have hp := rearr_valid_perm s σ a hσa
+    rw [minL_perm hp, maxL_perm hp]
+    cases minL a.valid <;> cases maxL a.valid <;> simp only [except_map_ok] <;> (congr 1; simp only [Arr.rearr, permute_map])
+  case normalizeZScore tt ft st e => exact rearr_zScoreBody s σ sqrt a _ _ _ _ hσa
+  case normalizeCat raw nv d => exact rearr_catBody s σ a raw nv d
+  case normalizeCurve raw nv => exact rearr_curveBody s σ _ a _ _
+  case normalizeMeanToMid iz nv => exact rearr_meanToMidBody s σ a iz nv hσa
+  case normalizeCurveZScore z nv => exact rearr_curveZBody s σ sqrt a z nv hσa
+  case cvtToFuzzyZScore tt ft => rw [rearr_zScoreBody s σ sqrt a _ _ _ _ hσa, fuzzyClamp_map_rearr]
+  case cvtToFuzzyCat raw fz d => rw [rearr_catBody, fuzzyClamp_map_rearr]
+  case cvtToFuzzyCurve raw fz => rw [rearr_curveBody, fuzzyClamp_map_rearr]
+  case cvtToFuzzyMeanToMid iz fz => rw [rearr_meanToMidBody s σ a iz fz hσa, fuzzyClamp_map_rearr]
+  case cvtToFuzzyCurveZScore z fz => rw [rearr_curveZBody s σ sqrt a z fz hσa, fuzzyClamp_map_rearr]
+  case cvtToBinary th dir =>
+    split
+    · rfl
+    · rw [← fuzzyClamp_map_rearr, except_map_ok]; congr 2; simp only [Arr.rearr, permute_map]
+  case fuzzyNot => rw [← fuzzyClamp_map_rearr, except_map_ok, rearr_mapCells]
+  case cvtFromFuzzy tt ft =>
+    split
+    · rfl
+    · rw [except_map_ok, rearr_linMap]
+  case cvtToFuzzy tt ft dir =>
+    cases dir with
+    | none => exact go_rearr a tt ft false s σ hσa
+    | some d =>
+      simp only
+      split
+      · rfl
+      · exact go_rearr a tt ft _ s σ hσa
+
+/-- non-vacuity: swapping the two cells of two-cell arrays is a rearrangement in the sense of `rearr_equivariant` -/
+example : ([1, 0] : List Nat).Perm (List.range 2) := by decide
 
 end MPilot.C05
